@@ -92,7 +92,8 @@ INL = [[("t", "plain words")], [("t", "an "), ("em", [("t", "emph")]), ("t", " w
        [("t", "see "), ("link", [("t", "text")], "http://x.y/", "")], [("link", [("em", [("t", "e")])], "http://x.y/", "Ti tle"), ("t", " end")], [("t", "l1"), ("br",), ("t", "l2")], [("auto", "http://a.b/c")],
        [("t", "a "), ("esc", "*"), ("t", " b "), ("ent", "copy"), ("t", " & < c")], [("st", [("t", "s "), ("em", [("t", "e")])]), ("t", " t")], [("t", "i "), ("img", "alt", "i.png", ""), ("t", " j")],
        [("t", "x"), ("raw", "^2^", "<sup>2</sup>"), ("t", " H"), ("raw", "~2~", "<sub>2</sub>"), ("t", "O")],
-       [("t", "math "), ("raw", "\\\\(x^2\\\\)", '<span class="math">\\(x^2\\)</span>'), ("t", " end")]]
+       [("t", "math "), ("raw", "\\\\(x^2\\\\)", '<span class="math">\\(x^2\\)</span>'), ("t", " end")],
+       [("t", "a snake_case_name and 5 * 3 * 2 stay literal")], [("t", "under_score "), ("em", [("t", "e")]), ("t", " x_y")]]
 # documented constructs whose HTML is taken from the syntax guide (MMD mode only)
 LITS = [
  ("lit", "|a|b|c|\n|:--|:-:|--:|\n|d|e|f|", '<table>\n<colgroup>\n<col style="text-align:left;"/>\n<col style="text-align:center;"/>\n<col style="text-align:right;"/>\n</colgroup>\n\n<thead>\n<tr>\n\t<th style="text-align:left;">a</th>\n\t<th style="text-align:center;">b</th>\n\t<th style="text-align:right;">c</th>\n</tr>\n</thead>\n\n<tbody>\n<tr>\n\t<td style="text-align:left;">d</td>\n\t<td style="text-align:center;">e</td>\n\t<td style="text-align:right;">f</td>\n</tr>\n</tbody>\n</table>', True),
@@ -112,6 +113,10 @@ def containers():
         if a[0] == "p" and b[0] == "p":
             out.append(("ul", False, [[a], [b]])); out.append(("ol", True, [[("p", a[1])], [("p", b[1])]]))
         out.append(("bq", [a, b]))
+    for i in INL:
+        out.append(("ol", False, [[("p", i)], [("p", INL[0])]])); out.append(("ol", False, [[("p", INL[0])], [("p", i)]]))
+        out.append(("ul", True, [[("p", i)], [("p", INL[0])]])); out.append(("ol", True, [[("p", INL[0])], [("p", i)]]))
+        out.append(("ul", False, [[("p", INL[0])], [("p", i)]]))
     out.append(("ul", False, [[("p", INL[0]), ("p", INL[1])], [("p", INL[2])]]))
     out.append(("ul", False, [[("p", INL[0]), ("ul", True, [[("p", INL[1])]])], [("p", INL[2])]]))
     out.append(("ul", True, [[("p", INL[0]), ("ul", True, [[("p", INL[1])], [("p", INL[3])]])], [("p", INL[2])]]))
